@@ -1172,6 +1172,16 @@ def main():
     old = open(a.o).read() if os.path.exists(a.o) else None
     if old != txt:
         open(a.o, 'w').write(txt)
+    NCH = 6
+    gd = os.path.dirname(a.o)
+    for k in range(NCH):
+        t = ('(* GENERATED by translate/effects2v.py: chunk %d of %d of the C19 obligation *)\n'
+             'From Coq Require Import List.\nRequire Import EoNV.Model.Effects.\nRequire Import EoNV.Gen.Effects.\n'
+             'Lemma oblig_%d : forallb (ok_entry eon_program) (chunk_of %d %d 0 (entry_points eon_program)) = true.\n'
+             'Proof. vm_compute. reflexivity. Qed.\n') % (k, NCH, k, NCH, k)
+        pth = os.path.join(gd, 'EffectsOblig%d.v' % k)
+        if not os.path.exists(pth) or open(pth).read() != t:
+            open(pth, 'w').write(t)
     if a.json:
         import json
         json.dump({'functions': table, 'notes': mod.notes, 'handlers': handlers, 'sites': mod.site}, open(a.json, 'w'), indent=1)
